@@ -7,29 +7,36 @@
 
    Quantifier.  Kinds read through the LOSSLESS deb822 reader (control, copyright, removal,
    buildinfo, DEP-3 header, APT sources list): EVERY text - well-formed or not - the kind's reader
-   accepts.  Kinds read through the LOSSY reader (apt Release / Source / Package): every text whose
-   paragraph, as the lossy reader returns it, is canonical (LossySpec.canon_para) - which
-   includes every well-formed document (doc_stable_lossy_wf).  No bound on sizes: the proofs are
-   inductions over token lists, paragraph lists and field lists.
+   accepts.  Kinds read through the LOSSY reader (apt Release / Source / Package): every text the
+   lossy reader accepts in whose paragraph no field value ends in LF (the last continuation line of
+   no field is blank or a comment) - which includes every well-formed document
+   (doc_stable_lossy_wf); values with blank or comment lines in the INTERIOR are covered
+   (proofs/TypedLossyP.v: lossy_paragraph_lcanon, lossy_reread_l).  No bound on sizes: the proofs
+   are inductions over token lists, paragraph lists and field lists.
 
    A struct value is a list of optional universal values (Derive.v); "equal" is Leibniz equality,
    so the value read back prints identically by congruence: the statements below say
        parse_K s = TOk v -> exists t, print_K v = Some t /\ parse_K t = TOk v' /\ v' = v /\ print_K v' = print_K v.
 
-   External codecs (url::Url, chrono::NaiveDate, debversion::Version, lossy Relations, and the
-   workspace's own field types) enter through ONE assumed law, [ext_stable ll ids]: a value that
-   codec i (i in ids) obtained by parsing a text of the reader's domain prints to canonical text
-   which, as that reader shows it, parses to the same value.  It is a premise of the theorems (named
-   in the evidence, validated on every run by the typed-doc stream against the real functions); the
-   ids are exactly those the kind's structs use ([ext_ids]).
+   External codecs enter through ONE law, [ext_stable_on G ll ids]: a value that codec i (i in ids)
+   obtained by parsing a text x of the reader's domain with G i x prints to canonical text
+   ([pcanon ll]: canonical for the lossless reader; for the lossy reader also with empty interior
+   lines) which, as that reader shows it, parses to the same value.  In the first family of theorems
+   (doc_stable_K) the law is a PREMISE for all sixteen codecs, unguarded ([ext_stable]) - and for
+   ParsedVcs that premise is false of the code (C20_ext_stable_vcs_refuted).  In the second family
+   (doc_stable_K_x, section "the workspace's own codecs") the twelve codecs that are plain code of
+   the workspace are COMPUTED by their models and the law is a theorem (x_stable), with three guards
+   that are known classes; the only premise left is [ext0_ok]: the law for debversion::Version (1),
+   url::Url (2), lossy Relations (3, a subject of C14) and chrono::NaiveDate (15), validated on every
+   run by the typed-doc stream against the real functions.
 
    Known classes (known_findings.jsonl), each with a witness that it is necessary:
      c20-files-hash-word        copyright: a Files / Files-Excluded item after the first starts with '#'
                                  ([Known_files_hash_word]; the printer puts one item per line and an
                                  indented '#' line is a comment)                    C20_files_hash_word_needed
      c20-lossy-blank-last-line  apt Release/Source/Package: a field value ends in LF because its last
-                                 continuation line is blank or a comment (the lossy paragraph is
-                                 then not canonical: [Known_lossy_noncanonical])   C20_lossy_blank_line_needed
+                                 continuation line is blank or a comment
+                                 ([Known_lossy_blank_last]; nothing wider)          C20_lossy_blank_line_needed
      c20-dep3-empty-header      DEP-3: none of the struct's fields (nor From / Subject) present: the
                                  value prints to the empty text ([Known_dep3_empty])   C20_dep3_empty_needed
      c20-lossy-empty-first-line apt Release/Source/Package: a field whose first line is empty: the
@@ -40,18 +47,23 @@
                                  the shipped function for a one-entry map (proposed fix)   C20_env_shipped_refuted
      c20-hash-order             HashMap / HashSet fields print in an order that differs between two
                                  instances of an equal value: printing is not a function of the
-                                 value, which the model presupposes (proposed fix; stream only) *)
+                                 value, which the model presupposes (proposed fix; stream only)
+     c20-vcs-second-group, c20-env-hash-line, c20-signature-hash-block: the three guards of the computed
+                                 codecs, see the section "the workspace's own codecs" below
+     c20-debversion-i32-digit-run  `==` on an apt Source / Package value panics for a Version with a digit
+                                 run beyond i32 (debversion; outside the model: stream only) *)
 From Coq Require Import ZArith.
 From V.model Require Import Base Deb822Lex Deb822Parse Grammar Lossy LossySpec Derive TypedDocs.
 From V.gen Require Import Structs_gen.
 From V.model Require Import Codecs.
-From V.proofs Require Import GrammarAccP LossyP LossyRtP DeriveP TypedCodecP TypedCanonP TypedDocsP TypedSpecP TypedClosedP.
+From V.model Require Import TypedExt.
+From V.proofs Require Import GrammarAccP LossyP LossyRtP DeriveP TypedCodecP TypedCanonP TypedLossyP TypedDocsP TypedSpecP TypedClosedP TypedExtP.
 
 (* ------------------------------------------------------------------ the known classes *)
 Definition Known_files_hash_word (s : str) : Prop :=
   exists t, from_str s = Ok t /\ forallb para_hash_free (paragraphs t) = false.
-Definition Known_lossy_noncanonical (s : str) : Prop :=
-  exists p, lossy_paragraph_from_str s = Ok p /\ canon_para p = false.
+Definition Known_lossy_blank_last (s : str) : Prop :=
+  exists p, lossy_paragraph_from_str s = Ok p /\ existsb (fun kv => ends_lf (snd kv)) p = true.
 Definition Known_dep3_empty {E : Type} (v : list (option (uval E))) : Prop := present_keys E fs_dep3 v = [].
 
 (* the shape every stability statement has (proofs/TypedSpecP.v):
@@ -113,45 +125,60 @@ Proof. exact lossy_reread. Qed.
 Check C20_reread_lossy : forall p, canon_para p = true -> lossy_paragraph_from_str (print_para p) = Ok p.
 Print Assumptions C20_reread_lossy.
 
+(* the same for the wider class the lossy reader itself produces: continuation lines may be empty,
+   the last one not; and every paragraph the lossy reader returns is of that class unless a value
+   ends in LF *)
+Theorem C20_reread_lossy_l : forall p, lcanon_para p = true -> lossy_paragraph_from_str (print_para p) = Ok p.
+Proof. exact lossy_reread_l. Qed.
+Check C20_reread_lossy_l : forall p, lcanon_para p = true -> lossy_paragraph_from_str (print_para p) = Ok p.
+Print Assumptions C20_reread_lossy_l.
+
+Theorem C20_lossy_values_lcanon : forall s p, lossy_paragraph_from_str s = Ok p ->
+  existsb (fun kv => ends_lf (snd kv)) p = false -> lcanon_para p = true.
+Proof. exact lossy_paragraph_lcanon. Qed.
+Check C20_lossy_values_lcanon : forall s p, lossy_paragraph_from_str s = Ok p ->
+  existsb (fun kv => ends_lf (snd kv)) p = false -> lcanon_para p = true.
+Print Assumptions C20_lossy_values_lcanon.
+
 (* ================================================================== (iii) the stability law, per codec pair and per struct *)
-Theorem C20_codec_stable : forall E ext_print ext_parse ll ids s d x u,
-  ext_stable E ext_print ext_parse ll ids -> (forall i, d = DExt i -> In i ids) -> stable_pair s d = true ->
+Theorem C20_codec_stable : forall E ext_print ext_parse G ll ids s d x u,
+  ext_stable_on E ext_print ext_parse G ll ids -> (forall i, d = DExt i -> In i ids /\ G i x = true) -> stable_pair s d = true ->
   dom ll x -> de E ext_parse d x = Some u ->
-  exists y, ser E ext_print s u = Some y /\ canon_value y = true /\ de E ext_parse d (rr ll y) = Some u.
+  exists y, ser E ext_print s u = Some y /\ pcanon ll y = true /\ de E ext_parse d (rr ll y) = Some u.
 Proof. exact stable_field. Qed.
-Check C20_codec_stable : forall E ext_print ext_parse ll ids s d x u,
-  ext_stable E ext_print ext_parse ll ids -> (forall i, d = DExt i -> In i ids) -> stable_pair s d = true ->
+Check C20_codec_stable : forall E ext_print ext_parse G ll ids s d x u,
+  ext_stable_on E ext_print ext_parse G ll ids -> (forall i, d = DExt i -> In i ids /\ G i x = true) -> stable_pair s d = true ->
   dom ll x -> de E ext_parse d x = Some u ->
-  exists y, ser E ext_print s u = Some y /\ canon_value y = true /\ de E ext_parse d (rr ll y) = Some u.
+  exists y, ser E ext_print s u = Some y /\ pcanon ll y = true /\ de E ext_parse d (rr ll y) = Some u.
 Print Assumptions C20_codec_stable.
 
 (* the white-space separated list printed one item per line (copyright Files, Files-Excluded) *)
 Theorem C20_codec_hash_guarded : forall E ext_print ext_parse ll s d x u,
   hash_pair s d = true -> hash_word_free x = true -> de E ext_parse d x = Some u ->
-  exists y, ser E ext_print s u = Some y /\ canon_value y = true /\ de E ext_parse d (rr ll y) = Some u.
+  exists y, ser E ext_print s u = Some y /\ pcanon ll y = true /\ de E ext_parse d (rr ll y) = Some u.
 Proof. exact hash_field. Qed.
 Check C20_codec_hash_guarded : forall E ext_print ext_parse ll s d x u,
   hash_pair s d = true -> hash_word_free x = true -> de E ext_parse d x = Some u ->
-  exists y, ser E ext_print s u = Some y /\ canon_value y = true /\ de E ext_parse d (rr ll y) = Some u.
+  exists y, ser E ext_print s u = Some y /\ pcanon ll y = true /\ de E ext_parse d (rr ll y) = Some u.
 Print Assumptions C20_codec_hash_guarded.
 
 (* any struct (any field list with ok_struct_stable), any getter whose values are in the reader's
    domain: the value read prints to canonical items and reads back from them *)
-Theorem C20_struct_stable : forall E ext_print ext_parse ll fs get v,
-  ok_struct_stable fs = true -> ext_stable E ext_print ext_parse ll (ext_ids fs) -> hash_guard fs get = true ->
+Theorem C20_struct_stable : forall E ext_print ext_parse G ll fs get v,
+  ok_struct_stable fs = true -> ext_stable_on E ext_print ext_parse G ll (ext_ids fs) -> ext_guard G fs get = true -> hash_guard fs get = true ->
   (forall k x, get k = Some x -> dom ll x) ->
   from_fields E ext_parse get fs = DOk v ->
   to_items E ext_print fs v = Some (present_items E ext_print fs v) /\
-  forallb canon_field (present_items E ext_print fs v) = true /\
+  forallb (pfield ll) (present_items E ext_print fs v) = true /\
   map fst (present_items E ext_print fs v) = present_keys E fs v /\
   from_fields E ext_parse (fun k => option_map (rr ll) (l_get (present_items E ext_print fs v) k)) fs = DOk v.
 Proof. exact read_value_good. Qed.
-Check C20_struct_stable : forall E ext_print ext_parse ll fs get v,
-  ok_struct_stable fs = true -> ext_stable E ext_print ext_parse ll (ext_ids fs) -> hash_guard fs get = true ->
+Check C20_struct_stable : forall E ext_print ext_parse G ll fs get v,
+  ok_struct_stable fs = true -> ext_stable_on E ext_print ext_parse G ll (ext_ids fs) -> ext_guard G fs get = true -> hash_guard fs get = true ->
   (forall k x, get k = Some x -> dom ll x) ->
   from_fields E ext_parse get fs = DOk v ->
   to_items E ext_print fs v = Some (present_items E ext_print fs v) /\
-  forallb canon_field (present_items E ext_print fs v) = true /\
+  forallb (pfield ll) (present_items E ext_print fs v) = true /\
   map fst (present_items E ext_print fs v) = present_keys E fs v /\
   from_fields E ext_parse (fun k => option_map (rr ll) (l_get (present_items E ext_print fs v) k)) fs = DOk v.
 Print Assumptions C20_struct_stable.
@@ -167,7 +194,7 @@ Notation ES := (ext_stable E ext_print ext_parse).
 Theorem doc_stable_control : forall s c,
   ES true (ext_ids fs_control_source) -> ES true (ext_ids fs_control_binary) ->
   parse_control E ext_parse s = TOk c -> stable (parse_control E ext_parse) (print_control E ext_print) c.
-Proof. intros s c H1 H2 H. apply stable_intro. eapply control_stable; eassumption. Qed.
+Proof. intros s c H1 H2 H. apply stable_intro. apply (control_stable E ext_print ext_parse (fun _ _ => true) s c H1 H2); [|exact H]. intros t _. apply forallb_all, control_guard_true. Qed.
 
 (* copyright: all texts outside the '#'-item class *)
 Theorem doc_stable_copyright : forall s c,
@@ -175,59 +202,60 @@ Theorem doc_stable_copyright : forall s c,
   ~ Known_files_hash_word s ->
   parse_copyright E ext_parse s = TOk c -> stable (parse_copyright E ext_parse) (print_copyright E ext_print) c.
 Proof.
-  intros s c H1 H2 H3 Hk H. apply stable_intro. eapply copyright_stable; try eassumption.
-  intros t Ht. destruct (forallb para_hash_free (paragraphs t)) eqn:Eh; [reflexivity|]. exfalso. apply Hk. exists t. auto.
+  intros s c H1 H2 H3 Hk H. apply stable_intro. apply (copyright_stable E ext_print ext_parse (fun _ _ => true) s c H1 H2 H3); [| |exact H].
+  - intros t Ht. destruct (forallb para_hash_free (paragraphs t)) eqn:Eh; [reflexivity|]. exfalso. apply Hk. exists t. auto.
+  - intros t _. split; [apply ext_guard_true|apply forallb_all, copyright_guard_true].
 Qed.
 
 (* removal, buildinfo: all texts *)
 Theorem doc_stable_removal : forall s v, ES true (ext_ids fs_removal) ->
   parse_removal E ext_parse s = TOk v -> stable (parse_removal E ext_parse) (print_removal E ext_print) v.
-Proof. intros s v H1 H. apply stable_intro. eapply ll1_stable; [apply ok_removal|apply nh_removal|apply hm_removal|exact H1|exact H]. Qed.
+Proof. intros s v H1 H. apply stable_intro. apply (ll1_stable E ext_print ext_parse (fun _ _ => true) fs_removal s v ok_removal nh_removal hm_removal H1); [|exact H]. intros t _. apply ext_guard_true. Qed.
 Theorem doc_stable_buildinfo : forall s v, ES true (ext_ids fs_buildinfo) ->
   parse_buildinfo E ext_parse s = TOk v -> stable (parse_buildinfo E ext_parse) (print_buildinfo E ext_print) v.
-Proof. intros s v H1 H. apply stable_intro. eapply ll1_stable; [apply ok_buildinfo|apply nh_buildinfo|apply hm_buildinfo|exact H1|exact H]. Qed.
+Proof. intros s v H1 H. apply stable_intro. apply (ll1_stable E ext_print ext_parse (fun _ _ => true) fs_buildinfo s v ok_buildinfo nh_buildinfo hm_buildinfo H1); [|exact H]. intros t _. apply ext_guard_true. Qed.
 
 (* DEP-3 header: all texts whose value has at least one field; the From / Subject fallbacks come back
    under Author / Description *)
 Theorem doc_stable_dep3 : forall s v, ES true (ext_ids fs_dep3) ->
   parse_dep3 E ext_parse s = TOk v -> ~ Known_dep3_empty v ->
   stable (parse_dep3 E ext_parse) (print_dep3 E ext_print) v.
-Proof. intros s v H1 H Hk. apply stable_intro. eapply dep3_stable; eassumption. Qed.
+Proof. intros s v H1 H Hk. apply stable_intro. apply (dep3_stable E ext_print ext_parse (fun _ _ => true) s v H1); [|exact H|exact Hk]. intros t _. apply ext_guard_true. Qed.
 
 (* APT sources list: all texts (the empty list prints to the empty text, which reads as the empty list) *)
 Theorem doc_stable_repositories : forall s rs, ES true (ext_ids fs_repository) ->
   parse_repositories E ext_parse s = TOk rs -> stable (parse_repositories E ext_parse) (print_repositories E ext_print) rs.
-Proof. intros s rs H1 H. apply stable_intro. eapply repositories_stable; eassumption. Qed.
+Proof. intros s rs H1 H. apply stable_intro. apply (repositories_stable E ext_print ext_parse (fun _ _ => true) s rs H1); [|exact H]. intros t _. apply forallb_all. intros p. apply ext_guard_true. Qed.
 
-(* apt Release / Source / Package: all texts whose lossy paragraph is canonical *)
-Theorem doc_stable_release : forall s v, ES false (ext_ids fs_release) -> ~ Known_lossy_noncanonical s ->
+(* apt Release / Source / Package: all texts in whose lossy paragraph no value ends in LF *)
+Theorem doc_stable_release : forall s v, ES false (ext_ids fs_release) -> ~ Known_lossy_blank_last s ->
   parse_release E ext_parse s = TOk v -> stable (parse_release E ext_parse) (print_release E ext_print) v.
 Proof.
   intros s v H1 Hk H. apply stable_intro. destruct (lossy1_sound _ _ _ _ _ H) as (p & Hp & _).
-  eapply lossy1_stable; [apply ok_release|apply nh_release|apply hm_release|exact H1|exact Hp| |exact H].
-  destruct (canon_para p) eqn:Ec; [reflexivity|]. exfalso. apply Hk. exists p. auto.
+  apply (lossy1_stable E ext_print ext_parse (fun _ _ => true) fs_release s p v ok_release nh_release hm_release H1 Hp); [|apply ext_guard_true|exact H].
+  apply (lossy_paragraph_lcanon s p Hp). destruct (existsb (fun kv => ends_lf (snd kv)) p) eqn:Ec; [|reflexivity]. exfalso. apply Hk. exists p. auto.
 Qed.
-Theorem doc_stable_apt_source : forall s v, ES false (ext_ids fs_apt_source) -> ~ Known_lossy_noncanonical s ->
+Theorem doc_stable_apt_source : forall s v, ES false (ext_ids fs_apt_source) -> ~ Known_lossy_blank_last s ->
   parse_apt_source E ext_parse s = TOk v -> stable (parse_apt_source E ext_parse) (print_apt_source E ext_print) v.
 Proof.
   intros s v H1 Hk H. apply stable_intro. destruct (lossy1_sound _ _ _ _ _ H) as (p & Hp & _).
-  eapply lossy1_stable; [apply ok_apt_source|apply nh_apt_source|apply hm_apt_source|exact H1|exact Hp| |exact H].
-  destruct (canon_para p) eqn:Ec; [reflexivity|]. exfalso. apply Hk. exists p. auto.
+  apply (lossy1_stable E ext_print ext_parse (fun _ _ => true) fs_apt_source s p v ok_apt_source nh_apt_source hm_apt_source H1 Hp); [|apply ext_guard_true|exact H].
+  apply (lossy_paragraph_lcanon s p Hp). destruct (existsb (fun kv => ends_lf (snd kv)) p) eqn:Ec; [|reflexivity]. exfalso. apply Hk. exists p. auto.
 Qed.
-Theorem doc_stable_apt_package : forall s v, ES false (ext_ids fs_apt_package) -> ~ Known_lossy_noncanonical s ->
+Theorem doc_stable_apt_package : forall s v, ES false (ext_ids fs_apt_package) -> ~ Known_lossy_blank_last s ->
   parse_apt_package E ext_parse s = TOk v -> stable (parse_apt_package E ext_parse) (print_apt_package E ext_print) v.
 Proof.
   intros s v H1 Hk H. apply stable_intro. destruct (lossy1_sound _ _ _ _ _ H) as (p & Hp & _).
-  eapply lossy1_stable; [apply ok_apt_package|apply nh_apt_package|apply hm_apt_package|exact H1|exact Hp| |exact H].
-  destruct (canon_para p) eqn:Ec; [reflexivity|]. exfalso. apply Hk. exists p. auto.
+  apply (lossy1_stable E ext_print ext_parse (fun _ _ => true) fs_apt_package s p v ok_apt_package nh_apt_package hm_apt_package H1 Hp); [|apply ext_guard_true|exact H].
+  apply (lossy_paragraph_lcanon s p Hp). destruct (existsb (fun kv => ends_lf (snd kv)) p) eqn:Ec; [|reflexivity]. exfalso. apply Hk. exists p. auto.
 Qed.
 
 (* every well-formed document is outside the class: the property's quantifier is covered *)
-Theorem doc_stable_lossy_wf : forall d, wf_doc d = true -> ~ Known_lossy_noncanonical (render d).
+Theorem doc_stable_lossy_wf : forall d, wf_doc d = true -> ~ Known_lossy_blank_last (render d).
 Proof.
   intros d Hwf (p & Hp & Hc). unfold lossy_paragraph_from_str in Hp. rewrite (lossy_render _ Hwf) in Hp.
   pose proof (wf_lossy_content_canon _ Hwf) as Hcd. destruct (lossy_content d) as [|q [|q2 r]]; try discriminate.
-  injection Hp as <-. cbn in Hcd. rewrite andb_true_r in Hcd. congruence.
+  injection Hp as <-. cbn in Hcd. rewrite andb_true_r in Hcd. rewrite (canon_para_no_blank_last _ Hcd) in Hc. discriminate.
 Qed.
 
 (* ================================================================== field by field, roles *)
@@ -365,18 +393,18 @@ Check doc_stable_repositories : forall E ext_print ext_parse s rs, ext_stable E 
   parse_repositories E ext_parse s = TOk rs -> stable (parse_repositories E ext_parse) (print_repositories E ext_print) rs.
 Print Assumptions doc_stable_repositories.
 Check doc_stable_release : forall E ext_print ext_parse s v, ext_stable E ext_print ext_parse false (ext_ids fs_release) ->
-  ~ Known_lossy_noncanonical s ->
+  ~ Known_lossy_blank_last s ->
   parse_release E ext_parse s = TOk v -> stable (parse_release E ext_parse) (print_release E ext_print) v.
 Print Assumptions doc_stable_release.
 Check doc_stable_apt_source : forall E ext_print ext_parse s v, ext_stable E ext_print ext_parse false (ext_ids fs_apt_source) ->
-  ~ Known_lossy_noncanonical s ->
+  ~ Known_lossy_blank_last s ->
   parse_apt_source E ext_parse s = TOk v -> stable (parse_apt_source E ext_parse) (print_apt_source E ext_print) v.
 Print Assumptions doc_stable_apt_source.
 Check doc_stable_apt_package : forall E ext_print ext_parse s v, ext_stable E ext_print ext_parse false (ext_ids fs_apt_package) ->
-  ~ Known_lossy_noncanonical s ->
+  ~ Known_lossy_blank_last s ->
   parse_apt_package E ext_parse s = TOk v -> stable (parse_apt_package E ext_parse) (print_apt_package E ext_print) v.
 Print Assumptions doc_stable_apt_package.
-Check doc_stable_lossy_wf : forall d, wf_doc d = true -> ~ Known_lossy_noncanonical (render d).
+Check doc_stable_lossy_wf : forall d, wf_doc d = true -> ~ Known_lossy_blank_last (render d).
 Print Assumptions doc_stable_lossy_wf.
 
 Check doc_fields_control : forall E ext_parse s c, parse_control E ext_parse s = TOk c ->
@@ -496,10 +524,10 @@ Print Assumptions doc_fields_copyright_wf.
 
 (* ================================================================== no assumption left *)
 (* Release and Removal use no external codec: for ANY codecs, nothing is assumed *)
-Theorem doc_stable_release_closed : forall E ext_print ext_parse s v, ~ Known_lossy_noncanonical s ->
+Theorem doc_stable_release_closed : forall E ext_print ext_parse s v, ~ Known_lossy_blank_last s ->
   parse_release E ext_parse s = TOk v -> stable (parse_release E ext_parse) (print_release E ext_print) v.
 Proof. intros E pr pa s v Hk H. eapply doc_stable_release; [rewrite release_no_ext; apply ext_stable_nil|exact Hk|exact H]. Qed.
-Check doc_stable_release_closed : forall E ext_print ext_parse s v, ~ Known_lossy_noncanonical s ->
+Check doc_stable_release_closed : forall E ext_print ext_parse s v, ~ Known_lossy_blank_last s ->
   parse_release E ext_parse s = TOk v -> stable (parse_release E ext_parse) (print_release E ext_print) v.
 Print Assumptions doc_stable_release_closed.
 
@@ -525,9 +553,9 @@ Theorem C20_partial :
   (forall ll ids, ext_stable E ext_print ext_parse ll ids) ->
   (forall s c, parse_control E ext_parse s = TOk c -> stable (parse_control E ext_parse) (print_control E ext_print) c) /\
   (forall s c, ~ Known_files_hash_word s -> parse_copyright E ext_parse s = TOk c -> stable (parse_copyright E ext_parse) (print_copyright E ext_print) c) /\
-  (forall s v, ~ Known_lossy_noncanonical s -> parse_release E ext_parse s = TOk v -> stable (parse_release E ext_parse) (print_release E ext_print) v) /\
-  (forall s v, ~ Known_lossy_noncanonical s -> parse_apt_source E ext_parse s = TOk v -> stable (parse_apt_source E ext_parse) (print_apt_source E ext_print) v) /\
-  (forall s v, ~ Known_lossy_noncanonical s -> parse_apt_package E ext_parse s = TOk v -> stable (parse_apt_package E ext_parse) (print_apt_package E ext_print) v) /\
+  (forall s v, ~ Known_lossy_blank_last s -> parse_release E ext_parse s = TOk v -> stable (parse_release E ext_parse) (print_release E ext_print) v) /\
+  (forall s v, ~ Known_lossy_blank_last s -> parse_apt_source E ext_parse s = TOk v -> stable (parse_apt_source E ext_parse) (print_apt_source E ext_print) v) /\
+  (forall s v, ~ Known_lossy_blank_last s -> parse_apt_package E ext_parse s = TOk v -> stable (parse_apt_package E ext_parse) (print_apt_package E ext_print) v) /\
   (forall s v, parse_removal E ext_parse s = TOk v -> stable (parse_removal E ext_parse) (print_removal E ext_print) v) /\
   (forall s v, parse_buildinfo E ext_parse s = TOk v -> stable (parse_buildinfo E ext_parse) (print_buildinfo E ext_print) v) /\
   (forall s v, ~ Known_dep3_empty v -> parse_dep3 E ext_parse s = TOk v -> stable (parse_dep3 E ext_parse) (print_dep3 E ext_print) v) /\
@@ -543,9 +571,9 @@ Check C20_partial :
   (forall ll ids, ext_stable E ext_print ext_parse ll ids) ->
   (forall s c, parse_control E ext_parse s = TOk c -> stable (parse_control E ext_parse) (print_control E ext_print) c) /\
   (forall s c, ~ Known_files_hash_word s -> parse_copyright E ext_parse s = TOk c -> stable (parse_copyright E ext_parse) (print_copyright E ext_print) c) /\
-  (forall s v, ~ Known_lossy_noncanonical s -> parse_release E ext_parse s = TOk v -> stable (parse_release E ext_parse) (print_release E ext_print) v) /\
-  (forall s v, ~ Known_lossy_noncanonical s -> parse_apt_source E ext_parse s = TOk v -> stable (parse_apt_source E ext_parse) (print_apt_source E ext_print) v) /\
-  (forall s v, ~ Known_lossy_noncanonical s -> parse_apt_package E ext_parse s = TOk v -> stable (parse_apt_package E ext_parse) (print_apt_package E ext_print) v) /\
+  (forall s v, ~ Known_lossy_blank_last s -> parse_release E ext_parse s = TOk v -> stable (parse_release E ext_parse) (print_release E ext_print) v) /\
+  (forall s v, ~ Known_lossy_blank_last s -> parse_apt_source E ext_parse s = TOk v -> stable (parse_apt_source E ext_parse) (print_apt_source E ext_print) v) /\
+  (forall s v, ~ Known_lossy_blank_last s -> parse_apt_package E ext_parse s = TOk v -> stable (parse_apt_package E ext_parse) (print_apt_package E ext_print) v) /\
   (forall s v, parse_removal E ext_parse s = TOk v -> stable (parse_removal E ext_parse) (print_removal E ext_print) v) /\
   (forall s v, parse_buildinfo E ext_parse s = TOk v -> stable (parse_buildinfo E ext_parse) (print_buildinfo E ext_print) v) /\
   (forall s v, ~ Known_dep3_empty v -> parse_dep3 E ext_parse s = TOk v -> stable (parse_dep3 E ext_parse) (print_dep3 E ext_print) v) /\
@@ -569,6 +597,8 @@ Definition w_dep3_empty : str := [70; 111; 111; 58; 32; 98; 97; 114; 10]%N.
 (* 'Foo: bar\n' *)
 Definition w_release_blank : str := [67; 111; 100; 101; 110; 97; 109; 101; 58; 32; 99; 10; 67; 111; 109; 112; 111; 110; 101; 110; 116; 115; 58; 32; 109; 97; 105; 110; 10; 65; 114; 99; 104; 105; 116; 101; 99; 116; 117; 114; 101; 115; 58; 32; 97; 109; 100; 54; 52; 10; 68; 101; 115; 99; 114; 105; 112; 116; 105; 111; 110; 58; 32; 100; 10; 32; 10; 79; 114; 105; 103; 105; 110; 58; 32; 111; 10; 76; 97; 98; 101; 108; 58; 32; 108; 10; 83; 117; 105; 116; 101; 58; 32; 115; 10; 86; 101; 114; 115; 105; 111; 110; 58; 32; 49; 10; 68; 97; 116; 101; 58; 32; 116; 111; 100; 97; 121; 10; 78; 111; 116; 65; 117; 116; 111; 109; 97; 116; 105; 99; 58; 32; 102; 97; 108; 115; 101; 10; 66; 117; 116; 65; 117; 116; 111; 109; 97; 116; 105; 99; 85; 112; 103; 114; 97; 100; 101; 115; 58; 32; 116; 114; 117; 101; 10; 65; 99; 113; 117; 105; 114; 101; 45; 66; 121; 45; 72; 97; 115; 104; 58; 32; 116; 114; 117; 101; 10]%N.
 (* 'Codename: c\nComponents: main\nArchitectures: amd64\nDescription: d\n \nOrigin: o\nLabel: l\nSuite: s\nVersion: 1\nDate: today\nNotAutomatic: false\nButAutomaticUpgrades: true\nAcquire-By-Hash: true\n' *)
+Definition ex_release_interior : str := [67; 111; 100; 101; 110; 97; 109; 101; 58; 32; 99; 10; 67; 111; 109; 112; 111; 110; 101; 110; 116; 115; 58; 32; 109; 97; 105; 110; 10; 65; 114; 99; 104; 105; 116; 101; 99; 116; 117; 114; 101; 115; 58; 32; 97; 109; 100; 54; 52; 10; 68; 101; 115; 99; 114; 105; 112; 116; 105; 111; 110; 58; 32; 100; 10; 32; 10; 32; 35; 32; 99; 10; 32; 101; 10; 79; 114; 105; 103; 105; 110; 58; 32; 111; 10; 76; 97; 98; 101; 108; 58; 32; 108; 10; 83; 117; 105; 116; 101; 58; 32; 115; 10; 86; 101; 114; 115; 105; 111; 110; 58; 32; 49; 10; 68; 97; 116; 101; 58; 32; 116; 111; 100; 97; 121; 10; 78; 111; 116; 65; 117; 116; 111; 109; 97; 116; 105; 99; 58; 32; 102; 97; 108; 115; 101; 10; 66; 117; 116; 65; 117; 116; 111; 109; 97; 116; 105; 99; 85; 112; 103; 114; 97; 100; 101; 115; 58; 32; 116; 114; 117; 101; 10; 65; 99; 113; 117; 105; 114; 101; 45; 66; 121; 45; 72; 97; 115; 104; 58; 32; 116; 114; 117; 101; 10]%N.
+(* 'Codename: c\nComponents: main\nArchitectures: amd64\nDescription: d\n \n # c\n e\nOrigin: o\nLabel: l\nSuite: s\nVersion: 1\nDate: today\nNotAutomatic: false\nButAutomaticUpgrades: true\nAcquire-By-Hash: true\n' *)
 Definition w_release_empty_first : str := [67; 111; 100; 101; 110; 97; 109; 101; 58; 32; 99; 10; 67; 111; 109; 112; 111; 110; 101; 110; 116; 115; 58; 32; 109; 97; 105; 110; 10; 65; 114; 99; 104; 105; 116; 101; 99; 116; 117; 114; 101; 115; 58; 32; 97; 109; 100; 54; 52; 10; 68; 101; 115; 99; 114; 105; 112; 116; 105; 111; 110; 58; 10; 32; 100; 10; 79; 114; 105; 103; 105; 110; 58; 32; 111; 10; 76; 97; 98; 101; 108; 58; 32; 108; 10; 83; 117; 105; 116; 101; 58; 32; 115; 10; 86; 101; 114; 115; 105; 111; 110; 58; 32; 49; 10; 68; 97; 116; 101; 58; 32; 116; 111; 100; 97; 121; 10; 78; 111; 116; 65; 117; 116; 111; 109; 97; 116; 105; 99; 58; 32; 102; 97; 108; 115; 101; 10; 66; 117; 116; 65; 117; 116; 111; 109; 97; 116; 105; 99; 85; 112; 103; 114; 97; 100; 101; 115; 58; 32; 116; 114; 117; 101; 10; 65; 99; 113; 117; 105; 114; 101; 45; 66; 121; 45; 72; 97; 115; 104; 58; 32; 116; 114; 117; 101; 10]%N.
 (* 'Codename: c\nComponents: main\nArchitectures: amd64\nDescription:\n d\nOrigin: o\nLabel: l\nSuite: s\nVersion: 1\nDate: today\nNotAutomatic: false\nButAutomaticUpgrades: true\nAcquire-By-Hash: true\n' *)
 Definition w_files_hash : str := [70; 111; 114; 109; 97; 116; 58; 32; 120; 10; 10; 70; 105; 108; 101; 115; 58; 32; 97; 32; 35; 98; 10; 67; 111; 112; 121; 114; 105; 103; 104; 116; 58; 32; 109; 101; 10; 76; 105; 99; 101; 110; 115; 101; 58; 32; 71; 80; 76; 10]%N.
@@ -645,10 +675,10 @@ Print Assumptions C20_files_hash_word_needed.
 (* apt Release: `Description: d` followed by a blank continuation line: the value "d\n" prints with
    an empty line after it and reads back as "d" *)
 Theorem C20_lossy_blank_line_needed :
-  Known_lossy_noncanonical w_release_blank /\ round 2 [] w_release_blank = Some false.
+  Known_lossy_blank_last w_release_blank /\ round 2 [] w_release_blank = Some false.
 Proof. split; [eexists; split; vm_compute; reflexivity|vm_compute; reflexivity]. Qed.
 Check C20_lossy_blank_line_needed :
-  Known_lossy_noncanonical w_release_blank /\ round 2 [] w_release_blank = Some false.
+  Known_lossy_blank_last w_release_blank /\ round 2 [] w_release_blank = Some false.
 Print Assumptions C20_lossy_blank_line_needed.
 
 (* apt Release: `Description:` with the text on the next line: stable, but the typed value "\nd" is
@@ -679,6 +709,202 @@ Check C20_env_shipped_refuted :
   round 6 tb_env_fixed w_buildinfo_env = Some true /\ canon_value t_A1 = true.
 Print Assumptions C20_env_shipped_refuted.
 
+
+(* ================================================================== the workspace's own codecs COMPUTED, not assumed *)
+(* model/TypedExt.v instantiates the external codecs with the framework's models of the twelve that
+   are plain code of the workspace (keyword enumerations, License, Signature, Forwarded,
+   AppliedUpstream, DEP-3 Origin, ParsedVcs - C18's models; environment map, repository-type set,
+   URI list - transcribed in this cone) and leaves Version, Url, lossy Relations, NaiveDate as values
+   of an arbitrary type E0 with printer p0 / parser q0.  For that instance the law [ext_stable_on
+   xguard] is a THEOREM (proofs/TypedExtP.v: x_stable); its only premise is [ext0_ok]: the law for
+   those four (and: the text of a Url is a non-empty white-space free token).  Three of the twelve
+   have a guard - values for which printing a parsed value is NOT stable (each a recorded finding,
+   each with a witness below):
+     c20-vcs-second-group      Vcs-Git with a second " [..]" group  (and: the theorem covers one-line values)
+     c20-env-hash-line         Environment: a "K=V" line starting with '#' that is not the first of the sorted lines
+     c20-signature-hash-block  Signed-By: a key block whose first line starts with '#' *)
+Definition Known_vcs_second_group (s : str) : Prop :=
+  exists t, from_str s = Ok t /\ forallb (control_guard xguard) (paragraphs t) = false.
+Definition Known_env_hash_line (s : str) : Prop :=
+  exists t, from_str s = Ok t /\ ext_guard xguard fs_buildinfo (get (hd (Tok ROOT []) (paragraphs t))) = false.
+Definition Known_signature_hash_block (s : str) : Prop :=
+  exists t, from_str s = Ok t /\ forallb (fun p => ext_guard xguard fs_repository (get p)) (paragraphs t) = false.
+
+Theorem C20_workspace_codecs_stable : forall E0 p0 q0 ll ids,
+  (needs_ext0 ids = true -> ext0_ok E0 p0 q0 ll) -> (In 7%N ids \/ In 12%N ids -> ll = true) -> (forall i, In i ids -> (1 <= i <= 16)%N) ->
+  ext_stable_on (xval E0) (xprint E0 p0) (xparse E0 q0) xguard ll ids.
+Proof. exact x_stable. Qed.
+Check C20_workspace_codecs_stable : forall E0 p0 q0 ll ids,
+  (needs_ext0 ids = true -> ext0_ok E0 p0 q0 ll) -> (In 7%N ids \/ In 12%N ids -> ll = true) -> (forall i, In i ids -> (1 <= i <= 16)%N) ->
+  ext_stable_on (xval E0) (xprint E0 p0) (xparse E0 q0) xguard ll ids.
+Print Assumptions C20_workspace_codecs_stable.
+
+Section KindsX.
+Variable E0 : Type.
+Variable p0 : N -> E0 -> str.
+Variable q0 : N -> str -> option E0.
+Notation X := (xval E0).
+Notation xpr := (xprint E0 p0).
+Notation xpa := (xparse E0 q0).
+Notation P0 := (ext0_ok E0 p0 q0).
+
+Notation xs := (xs_struct E0 p0 q0).
+
+Theorem doc_stable_control_x : forall s c, P0 true -> ~ Known_vcs_second_group s ->
+  parse_control X xpa s = TOk c -> stable (parse_control X xpa) (print_control X xpr) c.
+Proof.
+  intros s c H0 Hk H. apply stable_intro. apply (control_stable X xpr xpa xguard s c); [| | |exact H].
+  - apply xs; [cbn; tauto|intros _; exact H0|intros _; reflexivity].
+  - apply xs; [cbn; tauto|intros _; exact H0|intros _; reflexivity].
+  - intros t Ht. destruct (forallb (control_guard xguard) (paragraphs t)) eqn:Eg; [reflexivity|]. exfalso. apply Hk. exists t. auto.
+Qed.
+
+(* copyright: License is its only external codec - nothing is assumed *)
+Theorem doc_stable_copyright_x : forall s c, ~ Known_files_hash_word s ->
+  parse_copyright X xpa s = TOk c -> stable (parse_copyright X xpa) (print_copyright X xpr) c.
+Proof.
+  intros s c Hk H. apply stable_intro. apply (copyright_stable X xpr xpa xguard s c); [| | | | |exact H].
+  - apply xs; [cbn; tauto|vm_compute; discriminate|intros _; reflexivity].
+  - apply xs; [cbn; tauto|vm_compute; discriminate|intros _; reflexivity].
+  - apply xs; [cbn; tauto|vm_compute; discriminate|intros _; reflexivity].
+  - intros t Ht. destruct (forallb para_hash_free (paragraphs t)) eqn:Eh; [reflexivity|]. exfalso. apply Hk. exists t. auto.
+  - intros t _. pose proof no_guarded_structs as Hn. cbn [forallb] in Hn. repeat (apply andb_true_iff in Hn; destruct Hn as [? Hn]).
+    split; [apply no_guarded_guard; assumption|]. apply forallb_all. intros p. unfold copyright_guard.
+    destruct (get p k_Files); [apply no_guarded_guard; assumption|]. destruct (get p k_License); [apply no_guarded_guard; assumption|reflexivity].
+Qed.
+
+Theorem doc_stable_buildinfo_x : forall s v, P0 true -> ~ Known_env_hash_line s ->
+  parse_buildinfo X xpa s = TOk v -> stable (parse_buildinfo X xpa) (print_buildinfo X xpr) v.
+Proof.
+  intros s v H0 Hk H. apply stable_intro. apply (ll1_stable X xpr xpa xguard fs_buildinfo s v ok_buildinfo nh_buildinfo hm_buildinfo); [| |exact H].
+  - apply xs; [cbn; tauto|intros _; exact H0|intros _; reflexivity].
+  - intros t Ht. destruct (ext_guard xguard fs_buildinfo (get (hd (Tok ROOT []) (paragraphs t)))) eqn:Eg; [reflexivity|]. exfalso. apply Hk. exists t. auto.
+Qed.
+
+Theorem doc_stable_dep3_x : forall s v, P0 true -> parse_dep3 X xpa s = TOk v -> ~ Known_dep3_empty v ->
+  stable (parse_dep3 X xpa) (print_dep3 X xpr) v.
+Proof.
+  intros s v H0 H Hk. apply stable_intro. apply (dep3_stable X xpr xpa xguard s v); [| |exact H|exact Hk].
+  - apply xs; [cbn; tauto|intros _; exact H0|intros _; reflexivity].
+  - intros t _. apply no_guarded_guard. pose proof no_guarded_structs as Hn. cbn [forallb] in Hn. repeat (apply andb_true_iff in Hn; destruct Hn as [? Hn]). assumption.
+Qed.
+
+Theorem doc_stable_repositories_x : forall s rs, P0 true -> ~ Known_signature_hash_block s ->
+  parse_repositories X xpa s = TOk rs -> stable (parse_repositories X xpa) (print_repositories X xpr) rs.
+Proof.
+  intros s rs H0 Hk H. apply stable_intro. apply (repositories_stable X xpr xpa xguard s rs); [| |exact H].
+  - apply xs; [cbn; tauto|intros _; exact H0|reflexivity].
+  - intros t Ht. destruct (forallb (fun p => ext_guard xguard fs_repository (get p)) (paragraphs t)) eqn:Eg; [reflexivity|]. exfalso. apply Hk. exists t. auto.
+Qed.
+
+Theorem doc_stable_apt_source_x : forall s v, P0 false -> ~ Known_lossy_blank_last s ->
+  parse_apt_source X xpa s = TOk v -> stable (parse_apt_source X xpa) (print_apt_source X xpr) v.
+Proof.
+  intros s v H0 Hk H. apply stable_intro. destruct (lossy1_sound _ _ _ _ _ H) as (p & Hp & _).
+  apply (lossy1_stable X xpr xpa xguard fs_apt_source s p v ok_apt_source nh_apt_source hm_apt_source); [|exact Hp| | |exact H].
+  - apply xs; [cbn; tauto|intros _; exact H0|intros [E|E]; exfalso; revert E; vm_compute; discriminate].
+  - apply (lossy_paragraph_lcanon s p Hp). destruct (existsb (fun kv => ends_lf (snd kv)) p) eqn:Ec; [|reflexivity]. exfalso. apply Hk. exists p. auto.
+  - apply no_guarded_guard. pose proof no_guarded_structs as Hn. cbn [forallb] in Hn. repeat (apply andb_true_iff in Hn; destruct Hn as [? Hn]). assumption.
+Qed.
+Theorem doc_stable_apt_package_x : forall s v, P0 false -> ~ Known_lossy_blank_last s ->
+  parse_apt_package X xpa s = TOk v -> stable (parse_apt_package X xpa) (print_apt_package X xpr) v.
+Proof.
+  intros s v H0 Hk H. apply stable_intro. destruct (lossy1_sound _ _ _ _ _ H) as (p & Hp & _).
+  apply (lossy1_stable X xpr xpa xguard fs_apt_package s p v ok_apt_package nh_apt_package hm_apt_package); [|exact Hp| | |exact H].
+  - apply xs; [cbn; tauto|intros _; exact H0|intros [E|E]; exfalso; revert E; vm_compute; discriminate].
+  - apply (lossy_paragraph_lcanon s p Hp). destruct (existsb (fun kv => ends_lf (snd kv)) p) eqn:Ec; [|reflexivity]. exfalso. apply Hk. exists p. auto.
+  - apply no_guarded_guard. pose proof no_guarded_structs as Hn. cbn [forallb] in Hn. repeat (apply andb_true_iff in Hn; destruct Hn as [? Hn]). assumption.
+Qed.
+End KindsX.
+
+Check doc_stable_control_x : forall E0 p0 q0 s c, ext0_ok E0 p0 q0 true -> ~ Known_vcs_second_group s ->
+  parse_control (xval E0) (xparse E0 q0) s = TOk c -> stable (parse_control (xval E0) (xparse E0 q0)) (print_control (xval E0) (xprint E0 p0)) c.
+Print Assumptions doc_stable_control_x.
+Check doc_stable_copyright_x : forall E0 p0 q0 s c, ~ Known_files_hash_word s ->
+  parse_copyright (xval E0) (xparse E0 q0) s = TOk c -> stable (parse_copyright (xval E0) (xparse E0 q0)) (print_copyright (xval E0) (xprint E0 p0)) c.
+Print Assumptions doc_stable_copyright_x.
+Check doc_stable_buildinfo_x : forall E0 p0 q0 s v, ext0_ok E0 p0 q0 true -> ~ Known_env_hash_line s ->
+  parse_buildinfo (xval E0) (xparse E0 q0) s = TOk v -> stable (parse_buildinfo (xval E0) (xparse E0 q0)) (print_buildinfo (xval E0) (xprint E0 p0)) v.
+Print Assumptions doc_stable_buildinfo_x.
+Check doc_stable_dep3_x : forall E0 p0 q0 s v, ext0_ok E0 p0 q0 true -> parse_dep3 (xval E0) (xparse E0 q0) s = TOk v -> ~ Known_dep3_empty v ->
+  stable (parse_dep3 (xval E0) (xparse E0 q0)) (print_dep3 (xval E0) (xprint E0 p0)) v.
+Print Assumptions doc_stable_dep3_x.
+Check doc_stable_repositories_x : forall E0 p0 q0 s rs, ext0_ok E0 p0 q0 true -> ~ Known_signature_hash_block s ->
+  parse_repositories (xval E0) (xparse E0 q0) s = TOk rs -> stable (parse_repositories (xval E0) (xparse E0 q0)) (print_repositories (xval E0) (xprint E0 p0)) rs.
+Print Assumptions doc_stable_repositories_x.
+Check doc_stable_apt_source_x : forall E0 p0 q0 s v, ext0_ok E0 p0 q0 false -> ~ Known_lossy_blank_last s ->
+  parse_apt_source (xval E0) (xparse E0 q0) s = TOk v -> stable (parse_apt_source (xval E0) (xparse E0 q0)) (print_apt_source (xval E0) (xprint E0 p0)) v.
+Print Assumptions doc_stable_apt_source_x.
+Check doc_stable_apt_package_x : forall E0 p0 q0 s v, ext0_ok E0 p0 q0 false -> ~ Known_lossy_blank_last s ->
+  parse_apt_package (xval E0) (xparse E0 q0) s = TOk v -> stable (parse_apt_package (xval E0) (xparse E0 q0)) (print_apt_package (xval E0) (xprint E0 p0)) v.
+Print Assumptions doc_stable_apt_package_x.
+
+(* witnesses for the three guards, on the instance with the per-case table for the four externals *)
+Definition w_vcs_two_groups : str := [83; 111; 117; 114; 99; 101; 58; 32; 115; 10; 86; 99; 115; 45; 71; 105; 116; 58; 32; 104; 116; 116; 112; 115; 58; 47; 47; 120; 47; 121; 32; 91; 97; 93; 32; 91; 98; 93; 10]%N.
+(* 'Source: s\nVcs-Git: https://x/y [a] [b]\n' *)
+Definition w_env_hash_line : str := [70; 111; 114; 109; 97; 116; 58; 32; 49; 46; 48; 10; 66; 117; 105; 108; 100; 45; 65; 114; 99; 104; 105; 116; 101; 99; 116; 117; 114; 101; 58; 32; 97; 109; 100; 54; 52; 10; 83; 111; 117; 114; 99; 101; 58; 32; 115; 10; 65; 114; 99; 104; 105; 116; 101; 99; 116; 117; 114; 101; 58; 32; 97; 108; 108; 10; 86; 101; 114; 115; 105; 111; 110; 58; 32; 49; 10; 69; 110; 118; 105; 114; 111; 110; 109; 101; 110; 116; 58; 32; 35; 65; 61; 49; 10; 32; 33; 66; 61; 50; 10]%N.
+(* 'Format: 1.0\nBuild-Architecture: amd64\nSource: s\nArchitecture: all\nVersion: 1\nEnvironment: #A=1\n !B=2\n' *)
+Definition w_sig_hash_block : str := [84; 121; 112; 101; 115; 58; 32; 100; 101; 98; 10; 85; 82; 73; 115; 58; 32; 104; 116; 116; 112; 58; 47; 47; 120; 47; 10; 83; 117; 105; 116; 101; 115; 58; 32; 115; 10; 67; 111; 109; 112; 111; 110; 101; 110; 116; 115; 58; 32; 109; 97; 105; 110; 10; 65; 114; 99; 104; 105; 116; 101; 99; 116; 117; 114; 101; 115; 58; 32; 97; 109; 100; 54; 52; 10; 83; 105; 103; 110; 101; 100; 45; 66; 121; 58; 32; 35; 97; 98; 99; 10; 32; 100; 101; 102; 10]%N.
+(* 'Types: deb\nURIs: http://x/\nSuites: s\nComponents: main\nArchitectures: amd64\nSigned-By: #abc\n def\n' *)
+Definition ex_control_vcs : str := [83; 111; 117; 114; 99; 101; 58; 32; 115; 10; 80; 114; 105; 111; 114; 105; 116; 121; 58; 32; 111; 112; 116; 105; 111; 110; 97; 108; 10; 86; 99; 115; 45; 71; 105; 116; 58; 32; 104; 116; 116; 112; 115; 58; 47; 47; 120; 47; 121; 32; 45; 98; 32; 109; 97; 105; 110; 32; 91; 115; 117; 98; 93; 10; 10; 80; 97; 99; 107; 97; 103; 101; 58; 32; 112; 10; 77; 117; 108; 116; 105; 45; 65; 114; 99; 104; 58; 32; 115; 97; 109; 101; 10]%N.
+(* 'Source: s\nPriority: optional\nVcs-Git: https://x/y -b main [sub]\n\nPackage: p\nMulti-Arch: same\n' *)
+Definition ex_dep3_x : str := [79; 114; 105; 103; 105; 110; 58; 32; 118; 101; 110; 100; 111; 114; 10; 70; 111; 114; 119; 97; 114; 100; 101; 100; 58; 32; 110; 111; 116; 45; 110; 101; 101; 100; 101; 100; 10; 65; 112; 112; 108; 105; 101; 100; 45; 85; 112; 115; 116; 114; 101; 97; 109; 58; 32; 99; 111; 109; 109; 105; 116; 58; 97; 98; 99; 10; 68; 101; 115; 99; 114; 105; 112; 116; 105; 111; 110; 58; 32; 100; 10]%N.
+(* 'Origin: vendor\nForwarded: not-needed\nApplied-Upstream: commit:abc\nDescription: d\n' *)
+Definition ex_buildinfo_env : str := [70; 111; 114; 109; 97; 116; 58; 32; 49; 46; 48; 10; 66; 117; 105; 108; 100; 45; 65; 114; 99; 104; 105; 116; 101; 99; 116; 117; 114; 101; 58; 32; 97; 109; 100; 54; 52; 10; 83; 111; 117; 114; 99; 101; 58; 32; 115; 10; 65; 114; 99; 104; 105; 116; 101; 99; 116; 117; 114; 101; 58; 32; 97; 108; 108; 10; 86; 101; 114; 115; 105; 111; 110; 58; 32; 49; 10; 69; 110; 118; 105; 114; 111; 110; 109; 101; 110; 116; 58; 10; 32; 66; 61; 50; 10; 32; 65; 61; 49; 10; 32; 65; 61; 51; 10]%N.
+(* 'Format: 1.0\nBuild-Architecture: amd64\nSource: s\nArchitecture: all\nVersion: 1\nEnvironment:\n B=2\n A=1\n A=3\n' *)
+Definition t_vcs2 : str := [117; 32; 91; 97; 93; 32; 91; 98; 93]%N.
+(* 'u [a] [b]' *)
+Definition round_x (kind : N) (tbl : ext_table) (s : str) : option bool :=
+  match y_run kind tbl s with
+  | TOk o => Some (match y_run kind tbl (y_text o) with
+                   | TOk o' => list_eqb xsval_eqb (y_vals o) (y_vals o') && str_eqb (y_text o) (y_text o')
+                   | _ => false
+                   end)
+  | _ => None
+  end.
+Definition tb_v1 : ext_table := [((1%N, t_1), Some t_1)].
+Definition tb_urls : ext_table := [((2%N, t_url), Some t_url)].
+
+Theorem C20_vcs_second_group_needed :
+  Known_vcs_second_group w_vcs_two_groups /\ round_x 0 [] w_vcs_two_groups = Some false.
+Proof. split; [eexists; split; vm_compute; reflexivity|vm_compute; reflexivity]. Qed.
+Check C20_vcs_second_group_needed :
+  Known_vcs_second_group w_vcs_two_groups /\ round_x 0 [] w_vcs_two_groups = Some false.
+Print Assumptions C20_vcs_second_group_needed.
+
+Theorem C20_env_hash_line_needed :
+  Known_env_hash_line w_env_hash_line /\ round_x 6 tb_v1 w_env_hash_line = Some false.
+Proof. split; [eexists; split; vm_compute; reflexivity|vm_compute; reflexivity]. Qed.
+Check C20_env_hash_line_needed :
+  Known_env_hash_line w_env_hash_line /\ round_x 6 tb_v1 w_env_hash_line = Some false.
+Print Assumptions C20_env_hash_line_needed.
+
+Theorem C20_signature_hash_block_needed :
+  Known_signature_hash_block w_sig_hash_block /\ round_x 8 tb_urls w_sig_hash_block = Some false.
+Proof. split; [eexists; split; vm_compute; reflexivity|vm_compute; reflexivity]. Qed.
+Check C20_signature_hash_block_needed :
+  Known_signature_hash_block w_sig_hash_block /\ round_x 8 tb_urls w_sig_hash_block = Some false.
+Print Assumptions C20_signature_hash_block_needed.
+
+(* the UNGUARDED premise is false of C18's model of ParsedVcs: assuming ext_stable for codec 11 would have
+   been assuming a falsehood about the code (this is what the audit found) *)
+Theorem C20_ext_stable_vcs_refuted : ~ ext_stable (xval str) (xprint str table_print) (xparse str (table_parse [])) true [11%N].
+Proof.
+  intros H. assert (Hd : dom true t_vcs2) by (vm_compute; reflexivity).
+  destruct (H 11%N t_vcs2 (XVcs {| Vcs.repo_url := [117; 32; 91; 98; 93]%N; Vcs.branch := None; Vcs.subpath := Some [97%N] |}) (or_introl eq_refl) eq_refl Hd) as [_ H2];
+    [vm_compute; reflexivity|]. vm_compute in H2. discriminate.
+Qed.
+Check C20_ext_stable_vcs_refuted : ~ ext_stable (xval str) (xprint str table_print) (xparse str (table_parse [])) true [11%N].
+Print Assumptions C20_ext_stable_vcs_refuted.
+
+Example C20_ex_stable_x :
+  round_x 0 [] ex_control_vcs = Some true /\ round_x 7 [] ex_dep3_x = Some true /\ round_x 6 tb_v1 ex_buildinfo_env = Some true /\
+  round_x 1 [] ex_copyright = Some true /\ ~ Known_vcs_second_group ex_control_vcs.
+Proof.
+  split; [vm_compute; reflexivity|]. split; [vm_compute; reflexivity|]. split; [vm_compute; reflexivity|]. split; [vm_compute; reflexivity|].
+  intros (t & Ht & Hf). vm_compute in Ht. injection Ht as <-. vm_compute in Hf. discriminate.
+Qed.
+
 (* Non-vacuity: accepted, non-trivial documents of the kinds (several paragraphs in any order,
    comments, several blank lines, multi-line values, fallbacks, a second paragraph ignored) are
    stable on the table instance; structurally invalid variants are rejected with the right error. *)
@@ -689,11 +915,20 @@ Example C20_ex_stable :
 Proof. vm_compute. repeat split. Qed.
 Example C20_ex_control_value :
   exists c, parse_control str (table_parse []) ex_control = TOk c /\ length (c_binaries c) = 2 /\
-            ~ Known_files_hash_word ex_copyright /\ ~ Known_lossy_noncanonical ex_release.
+            ~ Known_files_hash_word ex_copyright /\ ~ Known_lossy_blank_last ex_release.
 Proof.
   eexists. split; [vm_compute; reflexivity|]. split; [reflexivity|]. split.
   - intros (t & Ht & Hf). vm_compute in Ht. injection Ht as <-. vm_compute in Hf. discriminate.
   - intros (p & Hp & Hc). vm_compute in Hp. injection Hp as <-. vm_compute in Hc. discriminate.
+Qed.
+(* the narrowed lossy class: a blank line and a comment in the INTERIOR of a value are outside it, and stable *)
+Example C20_ex_lossy_interior :
+  round 2 [] ex_release_interior = Some true /\ ~ Known_lossy_blank_last ex_release_interior /\
+  (exists p, lossy_paragraph_from_str ex_release_interior = Ok p /\ canon_para p = false /\ lcanon_para p = true).
+Proof.
+  split; [vm_compute; reflexivity|]. split.
+  - intros (p & Hp & Hc). vm_compute in Hp. injection Hp as <-. vm_compute in Hc. discriminate.
+  - eexists. split; [vm_compute; reflexivity|]. split; vm_compute; reflexivity.
 Qed.
 Example C20_ex_dep3_fallback :
   exists v, parse_dep3 str (table_parse []) ex_dep3 = TOk v /\ ~ Known_dep3_empty v /\
